@@ -1168,8 +1168,12 @@ class Session:
             if self.initiator_key_distribution & KeyDistribution.SIGN_KEY:
                 self.send_command(SMP_Signing_Information_Command(signature_key=csrk))
 
-            # CTKD, calculate BR/EDR link key
-            if self.initiator_key_distribution & KeyDistribution.LINK_KEY:
+            # CTKD, calculate BR/EDR link key (only from an LE Secure Connections LTK)
+            if (
+                self.initiator_key_distribution & KeyDistribution.LINK_KEY
+                and self.sc
+                and self.connection.transport == PhysicalTransport.LE
+            ):
                 self.link_key = self.derive_link_key(self.ltk, self.ct2)
 
         else:
@@ -1207,8 +1211,12 @@ class Session:
             if self.responder_key_distribution & KeyDistribution.SIGN_KEY:
                 self.send_command(SMP_Signing_Information_Command(signature_key=csrk))
 
-            # CTKD, calculate BR/EDR link key
-            if self.responder_key_distribution & KeyDistribution.LINK_KEY:
+            # CTKD, calculate BR/EDR link key (only from an LE Secure Connections LTK)
+            if (
+                self.responder_key_distribution & KeyDistribution.LINK_KEY
+                and self.sc
+                and self.connection.transport == PhysicalTransport.LE
+            ):
                 self.link_key = self.derive_link_key(self.ltk, self.ct2)
 
     def compute_peer_expected_distributions(self, key_distribution_flags: int) -> None:
